@@ -1,8 +1,14 @@
 #!/bin/bash
 # usage: run.sh <property|all> <quick|thorough>   or   run.sh -replay <file> | -dump <fn> | -selftest
 # Builds the checker if needed (offline, vendored) and runs it against /repo's current tree.
+#
+# thorough = quick obligations + the same obligations on the GOARCH=386 build + a sensitivity
+# replay: every seeded regression recorded for the property under seeded/ is applied to a scratch
+# copy of the CURRENT working tree (outside /repo and /verif, removed afterwards) and the check must
+# report it. The replay only measures the checker; the exit status is the property's verdict on /repo.
 set -u
 HERE=$(cd "$(dirname "$0")" && pwd)
+REPO=${ZV_REPO:-/repo}
 export PATH=/opt/veriftools/go1.26.8/bin:$PATH
 export GOTOOLCHAIN=local GOPROXY=off GOSUMDB=off GOWORK=off
 unset GOFLAGS
@@ -10,7 +16,63 @@ BIN=$HERE/bin/zverif
 if [ ! -x "$BIN" ] || [ -n "$(find "$HERE/zverif" -name '*.go' -newer "$BIN" -not -path '*/vendor/*' -print -quit)" ]; then
   (cd "$HERE/zverif" && GOFLAGS=-mod=vendor go build -o "$BIN" .) || { echo "ERROR: cannot build zverif"; exit 2; }
 fi
+
+sensitivity() { # $1 = property id; prints a JSON array
+  local prop=$1 scratch out first=1
+  scratch=$(mktemp -d /tmp/zv-scratch.XXXXXX) || return
+  mkdir -p "$scratch/verif" && cp "$HERE/known_findings.json" "$scratch/verif/"
+  echo "["
+  for meta in "$HERE"/seeded/*/meta.json; do
+    [ -f "$meta" ] || continue
+    local dir id
+    dir=$(dirname "$meta"); id=$(basename "$dir")
+    python3 - "$meta" "$prop" <<'PY' || continue
+import json,sys,re
+m=json.load(open(sys.argv[1])); p=sys.argv[2]
+caught=re.findall(r'(?i)caught by (C\d\d)', m.get('checker_result',''))
+sys.exit(0 if (p in caught or (not caught and m.get('property')==p)) else 1)
+PY
+    rm -rf "$scratch/tree"; mkdir -p "$scratch/tree"
+    (cd "$REPO" && tar --exclude=.git -cf - .) | (cd "$scratch/tree" && tar -xf -)
+    local result detail=""
+    if (cd "$scratch/tree" && git apply --unsafe-paths "$dir/patch.diff" >/dev/null 2>&1) || (cd "$scratch/tree" && patch -p1 -s -f < "$dir/patch.diff" >/dev/null 2>&1); then
+      out=$("$BIN" -verif "$scratch/verif" -repo "$scratch/tree" -property "$prop" -tier quick 2>&1); rc=$?
+      if [ $rc = 1 ] && echo "$out" | grep -q "^VIOLATION property=$prop"; then
+        result=caught; detail=$(echo "$out" | grep -m1 "violated:" | sed 's/^ *//' | cut -c1-240)
+      else
+        result=missed; detail="exit status $rc"
+      fi
+    else
+      result=skipped; detail="patch does not apply to the current tree"
+    fi
+    [ $first = 1 ] || echo ","
+    first=0
+    python3 -c 'import json,sys; print(json.dumps({"seed":sys.argv[1],"result":sys.argv[2],"detail":sys.argv[3]}))' "$id" "$result" "$detail"
+  done
+  echo "]"
+  rm -rf "$scratch"
+}
+
 case "${1:-}" in
-  -*) exec "$BIN" -verif "$HERE" "$@";;
-  *)  exec "$BIN" -verif "$HERE" -property "$1" -tier "${2:-quick}";;
+  -*) exec "$BIN" -verif "$HERE" -repo "$REPO" "$@";;
+  *)
+    tier=${2:-quick}
+    if [ "$tier" = thorough ] && [ "$1" != all ]; then
+      rep=$(mktemp /tmp/zv-sens.XXXXXX)
+      mkdir -p "$HERE/evidence"
+      sensitivity "$1" > "$rep"
+      # the scratch runs write their evidence under the scratch dir (-verif), needing known_findings there
+      ZV_SENSITIVITY=$rep "$BIN" -verif "$HERE" -repo "$REPO" -property "$1" -tier thorough; rc=$?
+      python3 - "$rep" <<'PY'
+import json,sys
+try:
+    for e in json.load(open(sys.argv[1])):
+        print("SENSITIVITY seed=%s %s %s" % (e["seed"], e["result"], e["detail"]))
+except Exception as ex:
+    print("SENSITIVITY report unreadable:", ex)
+PY
+      rm -f "$rep"
+      exit $rc
+    fi
+    exec "$BIN" -verif "$HERE" -repo "$REPO" -property "$1" -tier "$tier";;
 esac
